@@ -49,6 +49,17 @@ def split(test, pol):
         if isinstance(test.op, ast.Or) and not pol:
             return [f for v in test.values for f in split(v, False)]
         return [(test, pol)]
+    if isinstance(test, ast.Compare) and len(test.ops) > 1 and pol:
+        # a <= b <= c  holds  ==  a <= b and b <= c
+        out = []
+        left = test.left
+        for op, right in zip(test.ops, test.comparators):
+            c = ast.Compare(left=left, ops=[op], comparators=[right])
+            ast.copy_location(c, test)
+            c._parent = getattr(test, "_parent", None)
+            out.append((c, True))
+            left = right
+        return out
     return [(test, pol)]
 
 
@@ -211,3 +222,48 @@ def in_loop_orelse(node, loop):
     while cur is not None and parent(cur) is not loop:
         cur = parent(cur)
     return cur is not None and any(cur is s for s in loop.orelse)
+
+
+def int_bounds(fs, name):
+    """(lower, upper) bounds of integer variable `name` implied by must-facts that compare it with integer constants
+    (either operand order, either polarity, chained comparisons already split).  None = unbounded."""
+    lo = hi = None
+
+    def upd(kind, v):
+        nonlocal lo, hi
+        if kind == "ge":
+            lo = v if lo is None else max(lo, v)
+        else:
+            hi = v if hi is None else min(hi, v)
+    for e, pol in fs:
+        if not (isinstance(e, ast.Compare) and len(e.ops) == 1):
+            continue
+        l, r, op = e.left, e.comparators[0], type(e.ops[0])
+
+        def cval(x):
+            if isinstance(x, ast.Constant) and isinstance(x.value, int) and not isinstance(x.value, bool):
+                return x.value
+            if isinstance(x, ast.UnaryOp) and isinstance(x.op, ast.USub) and isinstance(x.operand, ast.Constant) and isinstance(x.operand.value, int):
+                return -x.operand.value
+            return None
+        if isinstance(l, ast.Name) and l.id == name and cval(r) is not None:
+            c = cval(r)
+        elif isinstance(r, ast.Name) and r.id == name and cval(l) is not None:
+            c = cval(l)
+            op = {ast.Lt: ast.Gt, ast.Gt: ast.Lt, ast.LtE: ast.GtE, ast.GtE: ast.LtE}.get(op, op)
+        else:
+            continue
+        if not pol:
+            op = {ast.Lt: ast.GtE, ast.GtE: ast.Lt, ast.Gt: ast.LtE, ast.LtE: ast.Gt, ast.Eq: ast.NotEq, ast.NotEq: ast.Eq}.get(op, op)
+        if op is ast.GtE:
+            upd("ge", c)
+        elif op is ast.Gt:
+            upd("ge", c + 1)
+        elif op is ast.LtE:
+            upd("le", c)
+        elif op is ast.Lt:
+            upd("le", c - 1)
+        elif op is ast.Eq:
+            upd("ge", c)
+            upd("le", c)
+    return lo, hi
